@@ -58,6 +58,12 @@ func runC16(r *simkit.Run) {
 			// data word 0 >= 5
 			d.Preds = append(d.Preds, ref.TrigPredicate{Offset: 4, Op: 4, IntArg: bigInt(5)})
 		}
+		if c.Chance(200, "zero-topic-pred") {
+			// "topic 1 == 0": also true for logs that have no topic 1 at all (a missing topic reads
+			// as zero); the logs below carry one topic only
+			d.Preds = append(d.Preds, ref.TrigPredicate{Offset: 1, Op: 2, IntArg: bigInt(0)})
+			r.Probe("definition-with-zero-topic-predicate")
+		}
 		return d, topic
 	}
 	// where registrations go
